@@ -124,6 +124,42 @@ def deep_documents(ck, tier):
             ck.violation(f'select({sel!r}) on a list of {len(items)} siblings {what}', {'pattern': sel, 'siblings': len(items)})
 
 
+EMPTY_SPELLINGS = ['""', "''", '"\\\n"', '"\\\r\n"', "'\\\f'", '"\\\r"', '"\\\n\\\r\n"', "'\\\r\n\\\f'"]
+
+
+def empty_values(ck):
+    """Directed: every spelling of the EMPTY quoted value (nothing between the quotes, or only CSS line continuations, which
+    contribute nothing to a string).  ^=, $= and *= with it designate nothing, = with it designates exactly the elements whose
+    attribute is the empty string, :not() of each the complement.  Expected sets are read off the property text."""
+    import soupsieve as sv
+    from bs4 import BeautifulSoup
+    docs = [('html.parser', '<div id="r"><p id="1" a=""></p><p id="2" a="x"></p><p id="3"></p><p id="4" a=" "></p><p id="5" a="&#10;"></p><p id="6" a="\ufffd&#10;"></p></div>'),
+            ('lxml-xml', '<r id="r"><p id="1" a=""/><p id="2" a="x"/><p id="3"/><p id="4" a=" "/><q id="5" a="-"/></r>')]
+    for parser, markup in docs:
+        soup = BeautifulSoup(markup, parser)
+        allids = [e['id'] for e in soup.find_all(True)]
+        empt = [e['id'] for e in soup.find_all(True) if e.get('a') == '']
+        for sp in EMPTY_SPELLINGS:
+            for op in ('^=', '$=', '*=', '='):
+                for tail in ('', ' i', ' s'):
+                    for neg in (False, True):
+                        core = f'[a{op}{sp}{tail}]'
+                        pattern = f':not({core})' if neg else core
+                        pos = empt if op == '=' else []
+                        exp = [i for i in allids if i not in pos] if neg else pos
+                        ck.count(('empty-value', parser, op, neg))
+                        try:
+                            got = [e['id'] for e in sv.select(pattern, soup)]
+                        except Exception as ex:
+                            ck.violation(f'select({pattern!r}) raised {type(ex).__name__} on a valid selector of the C01 grammar',
+                                         {'pattern': pattern, 'markup': markup, 'parser': parser, 'message': str(ex).splitlines()[0][:200]})
+                            continue
+                        if got != exp:
+                            ck.violation(f'select({pattern!r}) returns ids {got} but CSS designates {exp} (the value is the empty string)',
+                                         {'pattern': pattern, 'markup': markup, 'parser': parser, 'observed_ids': got, 'expected_ids': exp,
+                                          'how': 'soupsieve.select(pattern, BeautifulSoup(markup, parser)); ids of the result'})
+
+
 def run(tier, seed):
     ck = Check(PID, tier, seed)
     ck.proof = lib.proof_step('props/C01.v', matchcheck.MATCH_CONE + ['FuelFacts.v', 'AttrPat.v', 'RunFacts.v', 'AttrFacts.v'])
@@ -154,6 +190,7 @@ def run(tier, seed):
                 sc_.meta[s_] = a_
         scs.append(sc_)
     deep_documents(ck, tier)
+    empty_values(ck)
     recs = matchcheck.run_corr(ck, scs)
     oracle(ck, scs, recs)
     return ck.finish(
